@@ -303,9 +303,28 @@ def judgeProgOne (j : JSt) (s : St) (c : Nat) (name got : String) : JSt :=
         else j
       | none => j.flag s!"trace-mismatch op={j.idx} field=p:{got}"
 
+/-- func_ref: the specification holds the func_ref cell of a program like any value; holders = its function pointers
+    + the permanent one -/
+def judgeFuncOne (j : JSt) (s : St) (c : Nat) (name got : String) : JSt :=
+  match s.heap[c]? with
+  | none => j
+  | some cell =>
+    if got == "x" then j
+    else match got.toNat? with
+      | some r =>
+        if cell.live && r + 1 != cell.ref then
+          j.flag s!"ref-mismatch op={j.idx} kind=program-func_ref prog={name} func_ref={r} function-pointers={cell.ref - 1}"
+        else j
+      | none => j.flag s!"trace-mismatch op={j.idx} field=func_ref:{got}"
+
+def judgeProgPair (j : JSt) (s : St) (c fc : Nat) (name fld : String) : JSt :=
+  match fld.splitOn "." with
+  | [a, f] => judgeFuncOne (judgeProgOne j s c name a) s fc name f
+  | _ => j.flag s!"trace-mismatch op={j.idx} field=p:{fld}"
+
 def judgeProg (j : JSt) (s : St) (pf : String) : JSt :=
   match (pf.drop 2).toString.splitOn "/" with
-  | [a, b] => if pf.startsWith "p:" then judgeProgOne (judgeProgOne j s cProg "uobj" a) s cBase "base" b
+  | [a, b] => if pf.startsWith "p:" then judgeProgPair (judgeProgPair j s cProg cFProg "uobj" a) s cBase cFBase "base" b
               else j.flag s!"trace-mismatch op={j.idx} field={pf}"
   | _ => j.flag s!"trace-mismatch op={j.idx} field={pf}"
 
